@@ -13,6 +13,7 @@ import (
 	"encoding/json"
 	"errors"
 	"fmt"
+	"google.golang.org/genproto/googleapis/api/annotations"
 	"io"
 	"net/http"
 	"net/http/httptest"
@@ -389,6 +390,11 @@ func buildTranscoder(sc *Scenario, fresh bool) (*vanguard.Transcoder, error) {
 		vanguard.WithMaxGetURLBytes(sc.Cfg.MaxGetURL),
 	}
 	opts := fakeOptions()
+	if len(sc.Cfg.Protocols) == 1 && sc.Cfg.Protocols[0] == "rest" {
+		// NewTranscoder wants at least one binding for a REST-only service
+		opts = append(opts, vanguard.WithRules(&annotations.HttpRule{Selector: "verif.v1.Svc.Unary",
+			Pattern: &annotations.HttpRule_Post{Post: "/v1/unary"}, Body: "*"}))
+	}
 	if sc.Cfg.Unknown {
 		opts = append(opts, vanguard.WithUnknownHandler(scriptedHandler("unknown")))
 	}
